@@ -281,6 +281,14 @@ func c19rFins() []c19rFin {
 		return c
 	})
 	add("first_or_init", false, false, func(q *gorm.DB, m c19rModel, k int) *gorm.DB { return q.FirstOrInit(m.New()) })
+	// history: ONE sub-query handle (built from the same handle, so it is a dry-run handle in the dry runs) bound by two
+	// statements, each binding a value of its own before it; the second statement is the one exposed / compared
+	add("subquery_reused", false, true, func(q *gorm.DB, m c19rModel, k int) *gorm.DB {
+		base := q.Session(&gorm.Session{})
+		sub := base.Session(&gorm.Session{NewDB: true}).Table(m.Table).Select(m.PK).Where(m.IC+" > ?", k%20)
+		base.Where(m.SC+" = ? AND "+m.PK+" IN (?)", "first"+c19Str(k), sub).Find(m.Slice())
+		return base.Where(m.SC+" <> ? AND "+m.PK+" IN (?)", "second"+c19Str(k), sub).Find(m.Slice())
+	})
 	// writes
 	add("update", true, true, func(q *gorm.DB, m c19rModel, k int) *gorm.DB {
 		return q.Model(m.New()).Update(m.SC, c19Str(k))
